@@ -648,6 +648,32 @@ def check_progress(world, hist, pred, idx, text, outp, logs, name):
                     return out
                 for i in proc:
                     cur[1] += DOTS.get(node["steps"][i]["status"], "?")
+    if name == "progress2":
+        # the FAILURE / ERROR sections: each processed step with a failing final status once, under
+        # the heading of its status class
+        want_problems = []
+        for e in logs[0]:
+            if e["cb"] == "scenario":
+                node = idx.get(e["id"])
+                proc = processed_steps(world, hist, pred, e["id"], node) if node else None
+                for i in (proc or []):
+                    st = node["steps"][i]
+                    if st["status"] in ("failed",):
+                        want_problems.append(("FAILURE", st["name"]))
+                    elif st["status"] in ("error", "hook_error", "undefined", "pending", "cleanup_error"):
+                        want_problems.append(("ERROR", st["name"]))
+        got_problems = []
+        lines_ = text.split("\n")
+        for k, line in enumerate(lines_):
+            m = re.match(r"^(FAILURE|ERROR) in step '(.*)':$", line)
+            if m and k + 1 < len(lines_) and lines_[k + 1].startswith("  Feature:  "):
+                got_problems.append((m.group(1), m.group(2)))
+        if sorted(got_problems) != sorted(want_problems):
+            extra = [x for x in set(got_problems) if got_problems.count(x) > want_problems.count(x)]
+            missing = [x for x in set(want_problems) if want_problems.count(x) > got_problems.count(x)]
+            out.append(V("C15", "progress-steps", "progress2:problem-sections:%s" % ("listed-twice-or-extra" if extra else "missing"),
+                         file=outp, extra=sorted(extra)[:3], missing=sorted(missing)[:3]))
+            return out
     got = {}
     for line in text.split("\n"):
         m = re.match(r"^(features/.+?\.feature)  (\S*)\s*$", line)
